@@ -79,6 +79,7 @@ type FnCtx struct {
 	usedLockInvs  map[string]bool
 	typeIDs       map[string]bool
 	axiomFacts    []string
+	sentinels     map[*ssa.Global]string
 }
 
 func newFnCtx(eng *Engine, fn *ssa.Function, fc *FuncContract, key string) *FnCtx {
@@ -87,7 +88,7 @@ func newFnCtx(eng *Engine, fn *ssa.Function, fc *FuncContract, key string) *FnCt
 		counters: map[string]int{}, strConsts: map[string]string{}, pathCap: 4096,
 		callOrd: map[ssa.Instruction]int{}, panicOrd: map[ssa.Instruction]string{}, usedSpecFns: map[string]bool{},
 		closures: map[string]*ssa.MakeClosure{}, inlined: map[string]bool{}, usedContracts: map[string]*FuncContract{},
-		usedLockInvs: map[string]bool{}, typeIDs: map[string]bool{}}
+		usedLockInvs: map[string]bool{}, typeIDs: map[string]bool{}, sentinels: map[*ssa.Global]string{}}
 }
 
 func (c *FnCtx) note(s string) { c.notes[s] = true }
